@@ -6,7 +6,8 @@ Facts emitted
   * `TCell._determine_response` as a complete table over (signal1, signal2, violation_count >= 3,
     canary_accuracy is not None and < 0.5): every class is probed at several points including both sides of each
     cut-off (2|3 violations, 0.49999|0.5 accuracy, None); a class whose probes disagree is `none`;
-  * `RegulatoryTCell._downgrade_action` on every action;
+  * the one-step downgrade a firing rule applies, on every action (observed through the public `evaluate`; the private
+    `_downgrade_action`, if present, must agree);
   * `SuppressionRule.can_suppress` on every (response level, max_severity) pair (the severity order);
   * `RegulatoryTCell.evaluate` on every (level, action, stable?, no rule | one rule (max_severity, condition result)).
 
@@ -89,19 +90,34 @@ def extract():
             respond.append((n1, n2, vc3, clow, val))
 
     # --- _downgrade_action ------------------------------------------------------------------------------------
-    down = []
-    for m, n in ac:
-        try:
-            v = aname(RegulatoryTCell()._downgrade_action(m))
-        except Exception:
-            v = None
-        if v is None or n is None:
-            facts["unknown"] += 1
-        down.append((n, v))
-
     def resp(level, action):
         return ImmuneResponse(agent_id="a", threat_level=level, action=action, signal1=T.Signal1.NON_SELF,
                               signal2=T.Signal2.NONE, violations=[])
+
+    # the step a firing rule takes, observed through the PUBLIC evaluate() (a CONFIRMED response, an unstable record,
+    # one always-true rule): this is what the table means.  The private helper, where it exists with the expected
+    # signature, must agree; where it was inlined / renamed / re-parameterised the public observation stands alone.
+    down = []
+    for m, n in ac:
+        try:
+            g = RegulatoryTCell(rules=[SuppressionRule("r", lambda a, b: True, max_severity=T.ThreatLevel.CONFIRMED)],
+                                stability_threshold=5)
+            out = g.evaluate(resp(T.ThreatLevel.CONFIRMED, m), ToleranceRecord(agent_id="a"))
+            v = aname(out.modified_action) if out.suppressed else None
+        except Exception:
+            v = None
+        try:
+            helper = RegulatoryTCell()._downgrade_action(m)
+        except (AttributeError, TypeError):
+            helper = None                          # no such helper any more: nothing to cross-check
+        except Exception:
+            helper, v = None, None
+        else:
+            if aname(helper) != v:
+                v = None
+        if v is None or n is None:
+            facts["unknown"] += 1
+        down.append((n, v))
 
     # --- can_suppress -------------------------------------------------------------------------------------------
     sev = []
